@@ -35,6 +35,7 @@ func runC08(c *an.Ctx) {
 		return
 	}
 	checkCachePurgeAfterDiskDelete(c, "C08.b", d.single)
+	checkIndexDeletedLast(c, "C08.b", d.single)
 	fn := d.deleteRange
 	t, ff := c.T(fn), c.F(fn)
 	one := func(callee *ssa.Function, what, id string) *ssa.Call {
